@@ -45,15 +45,23 @@ def cutoff_for(cc, lam, gpts, extent):
             "beyond_axis_nyquist": 0.5 * (ax_max + corner) + 0.3 * max(dax, day)}[cc]
 
 
+def _spread(table, i):
+    """index 3: a weighted series of spreads (non-unit weights, as a Gaussian focal-spread quadrature has) - an ensemble of envelopes"""
+    import abtem
+    if i < 3:
+        return table[i]
+    return abtem.distributions.from_values(np.array([table[1] * 0.5, table[1], table[2]]), weights=np.array([0.25, 2.0, 1.5]))
+
+
 def build(kind, energy, extent, gpts, cutoff, soft, spread, ab):
     import abtem
     if kind == "aperture":
         return abtem.Aperture(semiangle_cutoff=cutoff, soft=soft, energy=energy, extent=extent, gpts=gpts)
     if kind == "temporal":
-        return abtem.transfer.TemporalEnvelope(focal_spread=FOCAL[spread], energy=energy, extent=extent, gpts=gpts)
+        return abtem.transfer.TemporalEnvelope(focal_spread=_spread(FOCAL, spread), energy=energy, extent=extent, gpts=gpts)
     if kind == "spatial":
-        return abtem.transfer.SpatialEnvelope(angular_spread=ANGULAR[spread], energy=energy, extent=extent, gpts=gpts, **ABS[ab])
-    return abtem.CTF(focal_spread=FOCAL[spread], angular_spread=ANGULAR[(spread + 1) % 3], semiangle_cutoff=cutoff, soft=soft, energy=energy,
+        return abtem.transfer.SpatialEnvelope(angular_spread=_spread(ANGULAR, spread), energy=energy, extent=extent, gpts=gpts, **ABS[ab])
+    return abtem.CTF(focal_spread=_spread(FOCAL, spread), angular_spread=ANGULAR[(spread + 1) % 3], semiangle_cutoff=cutoff, soft=soft, energy=energy,
                      extent=extent, gpts=gpts, **ABS[ab])
 
 
@@ -104,7 +112,8 @@ def measure(obj, kind, energy, extent, gpts, cutoff, soft, case):
             a = np.asarray(ap._evaluate_kernel()).real.astype(np.float64)
             ev["excess_fp"] = fixed(float((k - a).max()))
         ev["min_fp"], ev["max_fp"] = fixed(k.min()), fixed(k.max())
-        ev["at_zero"] = fixed(k[0, 0])
+        z = k[..., 0, 0].reshape(-1)                   # every member of an ensemble of transfer functions
+        ev["at_zero"] = fixed(z[np.argmax(np.abs(z - 1.0))])
     except Exception as ex:
         ev["raised"] = True
         ev["exc"] = f"{type(ex).__name__}: {ex}"[:200]
